@@ -163,6 +163,8 @@ DriftOf(S, e, T) ==
                           \cup (IF M.eng.tmp # T.eng.tmp THEN {"eng.tmp"} ELSE {})
                           \cup (IF M.eng.pauser # T.eng.pauser \/ M.eng.whitelist # T.eng.whitelist THEN {"eng.roles"} ELSE {})
                      ELSE {})
+               \* the engine's Position query answers exactly the stored records (the model has no separate view)
+               \cup (IF "posq" \in DOMAIN T.eng /\ T.eng.posq # T.eng.pos THEN {"eng.posq"} ELSE {})
                \cup (IF M.ifund # T.ifund THEN {"ifund"} ELSE {})
                \cup (IF M.fpool # T.fpool THEN {"fpool"} ELSE {})
                \cup (IF M.feed # T.feed THEN {"feed"} ELSE {})
